@@ -602,8 +602,13 @@ fn check_files(case: &Case, ctx: &mut Ctx) -> Option<Violation> {
     let sentinel = case.param("sentinel") == 1;
     let mut plans = case.files.clone();
     if sentinel {
+        // a further input whose open never returns (a FIFO nobody writes to): jawk has no
+        // business touching it once the limit was reached in an earlier file
         datas.push(b"{\"id\":-7,\"s\":\"sentinel\",\"arr\":[1]}\n".to_vec());
-        plans.push(FilePlan::default());
+        plans.push(FilePlan {
+            open_blocks: true,
+            ..FilePlan::default()
+        });
     }
     let paths = ctx.fresh_paths(datas.len());
     let m = (2 * (skip + take) + 6) as usize;
@@ -704,12 +709,7 @@ fn check_files(case: &Case, ctx: &mut Ctx) -> Option<Violation> {
                 format!("the file devices delivered {} bytes although the last row was complete after {d} bytes (allowance {SLACK})", r.obs.delivered),
             );
         }
-        if sentinel && r.obs.files.last().map_or(0, |f| f.opened) > 0 {
-            return viol(
-                "C14.bounded",
-                "a further file argument was opened after the limit had been reached".to_string(),
-            );
-        }
+
     }
     if strip_paths(&r.obs.stdout, &paths) != strip_paths(&l1.obs.stdout, &paths) {
         return viol(
